@@ -480,9 +480,9 @@ func init() {
 			c.R.Rule = "(a) every register NR10-NR51, and every unmapped address between them (FF15, FF1F, FF27-FF2F), x all 256 values x power state {on, off, off-then-on}, each preceded by a write of the complementary value: all 20 registers, NR52 and all of wave RAM are read back and compared with the reference (last written value OR mask while on; masks while off; writes ignored while off except NR52 and the length registers; wave RAM preserved); (c) every register written once (all 256 values for the sweep and envelope registers) and then left alone for 327,680 cycles with the channels idle or playing: the read-back never changes; (b) every sequence up to the depth bound over {write r<-v for all 20 registers + 3 wave-RAM bytes x 8 values (no trigger bits), NR52<-00, NR52<-80, 1 cycle, 2,048 cycles, 4,096 cycles}, all registers compared after every event and NR52 after every cycle; (w) wave RAM across stop and restart: channel 3 played for every number of cycles of four wave periods at 7 frequencies, stopped by power-off / DAC off / length expiry, triggered again from idle and stopped: FF30-FF3F still read the bytes written"
 			c.R.Assumptions = []string{"trigger bits are excluded from the write values of (b); status bits under triggers are C19's", "NR52's low nibble is predicted by the shared length/status model"}
 		}
-		explore.Product(c.R, "readback-all-values", explore.PartOpt{Bound: "single write per observation", Domain: "20 registers and the 11 unmapped addresses between them (FF15, FF1F, FF27-FF2F) x 256 values x 3 power states; all registers and the whole of wave RAM read back"},
+		explore.Product(c.R, "readback-all-values", explore.PartOpt{Bound: "single write per observation", Domain: "20 registers, NR52 itself and the 11 unmapped addresses between them (FF15, FF1F, FF27-FF2F) x 256 values x 3 power states; all registers and the whole of wave RAM read back"},
 			func(yield func(c18Case) bool) {
-				regs := append([]uint16{0xff15, 0xff1f, 0xff27, 0xff28, 0xff29, 0xff2a, 0xff2b, 0xff2c, 0xff2d, 0xff2e, 0xff2f}, apuRegs...)
+				regs := append([]uint16{0xff26, 0xff15, 0xff1f, 0xff27, 0xff28, 0xff29, 0xff2a, 0xff2b, 0xff2c, 0xff2d, 0xff2e, 0xff2f}, apuRegs...)
 				for _, r := range regs {
 					for _, s := range []string{"on", "off", "off-on"} {
 						if !yield(c18Case{r, s}) {
